@@ -475,7 +475,7 @@ int main(int argc, char** argv) {
             cs.fmt = (c % 4) & 1; cs.ix = ((c % 4) >> 1) & 1;
             const long n = en.lens[c][e - en.start[c]];
             if (rng.chance(0.3)) { ArrSpec m; m.a.name = "MSG"; m.a.type = eref::MESS; m.api = API_MESSAGE; cs.arrs.push_back(m); }
-            cs.arrs.push_back(genArray(rng, t, n, cs.fmt, "DATA", cs.fmt ? 77 : 99));
+            cs.arrs.push_back(genArray(rng, t, n, cs.fmt, "DATA", cs.fmt && !wideC0nn ? 77 : 99));
             ArrSpec tail; tail.a.name = "TAIL"; tail.a.type = eref::INTE; tail.a.iv = {42}; cs.arrs.push_back(tail);
             kind = "enumerated";
             rep.cover(std::string("enumerated_lengths_") + eref::type_name(t), cs.tag());
@@ -485,7 +485,7 @@ int main(int argc, char** argv) {
             for (int i = 0; i < na; ++i) {
                 if (rng.chance(0.12)) { ArrSpec m; m.a.name = genName(rng); m.a.type = eref::MESS; m.api = API_MESSAGE; cs.arrs.push_back(m); continue; }
                 const eref::Type t = DATA_TYPES[rng.below(6)];
-                cs.arrs.push_back(genArray(rng, t, randomLength(rng, t, maxlen), cs.fmt, genName(rng), cs.fmt ? 77 : 99));
+                cs.arrs.push_back(genArray(rng, t, randomLength(rng, t, maxlen), cs.fmt, genName(rng), cs.fmt && !wideC0nn ? 77 : 99));
             }
             kind = "random";
         }
